@@ -210,8 +210,12 @@ func c06DistRun(c c06Dist) (sig, what string) {
 	if !ok {
 		return "bad-case", "unknown branch"
 	}
-	e := newRealEmitter(c.Variant, 2048)
-	m := newModelFor(c.Variant, 2048)
+	room := 2048
+	if c.Distance > 1000 || c.Distance < -1000 {
+		room = 66200 // far distances: a program that fills (almost) a whole bank
+	}
+	e := newRealEmitter(c.Variant, room)
+	m := newModelFor(c.Variant, room)
 	var pn interface{}
 	func() {
 		defer func() { pn = recover() }()
@@ -398,6 +402,25 @@ func runC06(r *report.Run) {
 			}
 		}
 	}
+	// far distances: label and branch (almost) a whole bank apart -- 16-bit arithmetic on the distance would
+	// make them look near. The program must stay inside one bank, so only bases at a bank start, listing off.
+	for _, v := range variants {
+		if v.Listing || (v.BaseSet && v.Base&0xFFFF != 0) {
+			continue
+		}
+		for name, br := range c06Branches {
+			ilen := 3
+			if br.s8 {
+				ilen = 2
+			}
+			for k := 0; k <= 140; k++ {
+				dist = append(dist, c06Dist{v, name, -65536 + k, 1, ""}, c06Dist{v, name, 65536 - ilen - k, 1, ""})
+			}
+			for k := -3; k <= 3; k++ {
+				dist = append(dist, c06Dist{v, name, -32768 + k, 1, ""}, c06Dist{v, name, 32768 + k, 1, ""})
+			}
+		}
+	}
 	var nd int64
 	par.For(len(dist), func(_, i int) {
 		if sig, what := c06DistRun(dist[i]); sig != "" {
@@ -417,7 +440,7 @@ func runC06(r *report.Run) {
 	r.Set("histories", hist)
 	r.Set("distance_cases", nd)
 	r.Set("bounds", map[string]interface{}{"history_depth": depth, "alphabet": len(asmAlphabet()), "constructor_variants": len(variants), "distances": fmt.Sprintf("[-%d,%d]", lim, lim), "branches": len(c06Branches)})
-	r.Set("rule", "every sequence of emitter calls up to the depth over the 25-symbol alphabet under every constructor variant (listing on/off x base unset/$000000/$008000/$7E2000/$FF8000): each call is executed on a fresh real Emitter and what the emitter did is recorded (accepted or not, the bytes it appended and their offset in Bytes()); a label may be defined once (a second definition must be refused without effect); then Finalize twice against the resolution computed from those positions (which references are resolvable and in range, the operand values, no other byte changed); with listing off also with a successful Finalize inserted after every proper prefix; plus every branch distance in the stated range for each label-taking method, forward and backward, 1-3 references, with and without an additional unresolved or out-of-range reference. states = histories (each reaches one model state), transitions = calls executed")
+	r.Set("rule", "every sequence of emitter calls up to the depth over the 25-symbol alphabet under every constructor variant (listing on/off x base unset/$000000/$008000/$7E2000/$FF8000): each call is executed on a fresh real Emitter and what the emitter did is recorded (accepted or not, the bytes it appended and their offset in Bytes()); a label may be defined once (a second definition must be refused without effect); then Finalize twice against the resolution computed from those positions (which references are resolvable and in range, the operand values, no other byte changed); with listing off also with a successful Finalize inserted after every proper prefix; plus every branch distance in the stated range (and distances a whole bank apart, -65536..-65396 and +65393..+65534, and around +-32768) for each label-taking method, forward and backward, 1-3 references, with and without an additional unresolved or out-of-range reference. states = histories (each reaches one model state), transitions = calls executed")
 	r.Sample(asmHistory{Variant: variants[2], Ops: []string{"BNE(a)", "EmitBytes(33)", "Label(a)", "JMP_abs(b)"}, Capacity: 256})
 	r.Sample(c06Dist{variants[0], "BNE", -128, 2, "unresolved"})
 	r.Assume("Go map iteration order in Finalize is not controlled; the oracle accepts exactly the union of outcomes over all orders (any legitimately unresolved/out-of-range reference may be named, operand bytes may be patched or not on failure)")
